@@ -328,11 +328,14 @@ Definition start_headers (P : params) (prev : hdict) (q : sreq) : hdict :=
 Definition headers_after (P : params) (k : tkind) (c : creds) (prev : hdict) (q : sreq) : hdict :=
   writeback (add_credentials P k c (start_headers P prev q)).
 
-(* https.HttpAuthenticated keeps ONE urllib HTTPPasswordMgrWithDefaultRealm for its whole life:
-     addcredentials():  if None not in credentials: self.pm.add_password(None, request.url, u, p)
+(* https.HttpAuthenticated.addcredentials (since 2ac69bb):
+     self.pm = urllib.request.HTTPPasswordMgrWithDefaultRealm()      (a fresh one for every request)
+     if None not in credentials: self.pm.add_password(None, request.url, u, p)
    urllib: add_password stores under the reduced URI (here: the path; one host, no query) in a
    dict - the same path is overwritten in place, a new one appended; find_user_password returns
-   the FIRST entry, in insertion order, that is the request path or a path prefix of it. *)
+   the FIRST entry, in insertion order, that is the request path or a path prefix of it.
+   (Before 2ac69bb one manager lived as long as the transport and collected an entry per URL:
+   pm_after_accumulating below, kept as the regression witness.) *)
 Definition pmgr := list (str * (str * str)).
 Fixpoint pm_add (path u p : str) (pm : pmgr) : pmgr :=
   match pm with
@@ -348,7 +351,14 @@ Fixpoint pm_find (path : str) (pm : pmgr) : option (str * str) :=
   | [] => None
   | (base, up) :: r => if is_suburi base path then Some up else pm_find path r
   end.
+(* the manager a send works with; pm = whatever an earlier send left (no longer looked at) *)
 Definition pm_after (k : tkind) (c : creds) (pm : pmgr) (q : sreq) : pmgr :=
+  match k, c with
+  | TChallenge, (Some u, Some p) => [(q_path q, (u, p))]
+  | _, _ => []
+  end.
+(* the manager before 2ac69bb *)
+Definition pm_after_accumulating (k : tkind) (c : creds) (pm : pmgr) (q : sreq) : pmgr :=
   match k, c with
   | TChallenge, (Some u, Some p) => pm_add (q_path q) u p pm
   | _, _ => pm
@@ -532,7 +542,7 @@ Definition spec_cookies (history : list rev) (q : sreq) (o : sobs) : bool :=
 (* "when credentials are configured - an Authorization header from which the server
    recovers exactly the username and password": at once for the preemptive transport,
    after the server's challenge for the challenge-response transport *)
-Definition spec_credentials (k : tkind) (c : creds) (p : sresp) (o : sobs) : bool :=
+Definition spec_credentials (k : tkind) (c : creds) (p : sresp) (q : sreq) (o : sobs) : bool :=
   match c with
   | (Some u, Some pw) =>
       if creds_due k c p then
@@ -544,7 +554,11 @@ Definition spec_credentials (k : tkind) (c : creds) (p : sresp) (o : sobs) : boo
         | None => false
         end
       else true
-  | _ => true
+  | _ =>
+      (* no (complete) credentials are configured now - also after they were configured, used and
+         reset: nothing is offered; an Authorization line can only be the caller's own header *)
+      forallb (fun v => existsb (str_eqb v) (hdr_all l_authorization (q_hdrs q)))
+              (hdr_all l_authorization (o_hdrs o))
   end.
 
 (* "The caller receives the response body unchanged (decompressed when the server
@@ -581,7 +595,7 @@ Definition spec_result (p : sresp) (o : sobs) : bool :=
 
 Definition spec_step (k : tkind) (c : creds) (history : list rev) (q : sreq) (p : sresp) (o : sobs) : bool :=
   spec_body q o && spec_caller_headers k c p q o && spec_soap_headers q o &&
-  spec_cookies history q o && spec_credentials k c p o && spec_result p o.
+  spec_cookies history q o && spec_credentials k c p q o && spec_result p o.
 
 (* the response of a step that was challenged and not retried is the 401, which set no cookies *)
 Definition response_events (q : sreq) (p : sresp) (o : sobs) : list rev :=
@@ -683,7 +697,7 @@ Definition spec_part (n : N) (k : tkind) (c : creds) (history : list rev)
   | 0 => spec_body q o
   | 1 => spec_caller_headers k c p q o && spec_soap_headers q o
   | 2 => spec_cookies history q o
-  | 3 => spec_credentials k c p o
+  | 3 => spec_credentials k c p q o
   | _ => spec_result p o
   end.
 Fixpoint session_part (n : N) (k : tkind) (history : list rev) (steps : list step) : bool :=
